@@ -5,7 +5,11 @@ pub mod c01;
 pub mod c02;
 pub mod c03;
 pub mod c05;
+pub mod c08;
 pub mod c09;
+pub mod c11;
+pub mod c16;
+pub mod c17;
 pub mod script;
 pub mod util;
 
@@ -18,7 +22,11 @@ pub fn gen(prop: &str, tier: &str, seed: u64) -> Gen {
         "C02" => c02::gen(tier, seed),
         "C03" => c03::gen(tier, seed),
         "C05" => c05::gen(tier, seed),
+        "C08" => c08::gen(tier, seed),
         "C09" => c09::gen(tier, seed),
+        "C16" => c16::gen(tier, seed),
+        "C11" => c11::gen(tier, seed),
+        "C17" => c17::gen(tier, seed),
         _ => panic!("unknown property {}", prop),
     }
 }
@@ -29,7 +37,11 @@ pub fn run(prop: &str, case: &Term) -> Term {
         "C02" => c02::run(case),
         "C03" => c03::run(case),
         "C05" => c05::run(case),
+        "C08" => c08::run(case),
         "C09" => c09::run(case),
+        "C16" => c16::run(case),
+        "C11" => c11::run(case),
+        "C17" => c17::run(case),
         _ => panic!("unknown property {}", prop),
     }
 }
